@@ -1,0 +1,30 @@
+//go:build verif
+
+package jen
+
+// VerifHook, when non-nil, is called at the instrumentation points of the
+// verification build (build tag "verif"). It is nil unless a harness installs it.
+var VerifHook func(point string, f *File, arg string)
+
+func verifHook(point string, f *File, arg string) {
+	if h := VerifHook; h != nil {
+		h(point, f, arg)
+	}
+}
+
+// VerifState exposes a copy of the File's import bookkeeping to the verification
+// harness: every entry is {name, "alias" or ""}.
+func VerifState(f *File) (name, path, prefix string, imports, hints map[string][2]string) {
+	conv := func(m map[string]importdef) map[string][2]string {
+		out := make(map[string][2]string, len(m))
+		for p, d := range m {
+			a := ""
+			if d.alias {
+				a = "alias"
+			}
+			out[p] = [2]string{d.name, a}
+		}
+		return out
+	}
+	return f.name, f.path, f.PackagePrefix, conv(f.imports), conv(f.hints)
+}
